@@ -230,6 +230,27 @@ func show(v any, err error) string {
 
 func w[T any](v T, err error) (any, error) { return v, err }
 
+func numErrClass(err error) string {
+	switch {
+	case err == nil:
+		return "nil"
+	case errors.Is(err, strconv.ErrSyntax):
+		return "syntax"
+	case errors.Is(err, strconv.ErrRange):
+		return "range"
+	}
+	return "other"
+}
+
+// floatVerdict: "ok <what>" when the accessor returned exactly what the strconv call named by the model returns
+// (value bits and error class), "<what>-MISMATCH ..." otherwise.
+func floatVerdict(what string, bits uint64, err error, wantBits uint64, wantErr error) string {
+	if bits == wantBits && numErrClass(err) == numErrClass(wantErr) {
+		return "ok " + what
+	}
+	return fmt.Sprintf("ok %s-MISMATCH impl=%d/%s strconv=%d/%s", what, bits, numErrClass(err), wantBits, numErrClass(wantErr))
+}
+
 func exact(av ekit.AnyValue, t string) (any, error) {
 	switch t {
 	case "i":
@@ -291,21 +312,43 @@ func as(av ekit.AnyValue, t string, held any) string {
 	case "u64":
 		v, err = w(av.AsUint64())
 	case "f32":
-		v, err = w(av.AsFloat32())
-		if _, isStr := held.(string); isStr && av.Err == nil {
-			return "ok parsefloat" // strconv.ParseFloat is outside the model
+		f, ferr := av.AsFloat32()
+		v, err = f, ferr
+		if sv, isStr := held.(string); isStr && av.Err == nil {
+			// strconv.ParseFloat is outside the model (RParseFloat 32 s): the oracle instantiating it is
+			// strconv.ParseFloat(s, 32) called directly, narrowed to float32, error returned as it is
+			o, oerr := strconv.ParseFloat(sv, 32)
+			return floatVerdict("parsefloat", uint64(math.Float32bits(f)), ferr, uint64(math.Float32bits(float32(o))), oerr)
 		}
 	case "f64":
-		v, err = w(av.AsFloat64())
-		if _, isStr := held.(string); isStr && av.Err == nil {
-			return "ok parsefloat"
+		f, ferr := av.AsFloat64()
+		v, err = f, ferr
+		if sv, isStr := held.(string); isStr && av.Err == nil {
+			o, oerr := strconv.ParseFloat(sv, 64)
+			return floatVerdict("parsefloat", math.Float64bits(f), ferr, math.Float64bits(o), oerr)
 		}
 	case "str":
 		v, err = w(av.AsString())
 		if err == nil {
-			switch held.(type) {
-			case float32, float64, nF32, nF64:
-				return "ok fmtfloat" // strconv.FormatFloat is outside the model
+			// strconv.FormatFloat is outside the model (RFmtFloat w bits): instantiated by FormatFloat(x, 'f', 10, w)
+			want, isF := "", true
+			switch x := held.(type) {
+			case float32:
+				want = strconv.FormatFloat(float64(x), 'f', 10, 32)
+			case nF32:
+				want = strconv.FormatFloat(float64(x), 'f', 10, 32)
+			case float64:
+				want = strconv.FormatFloat(x, 'f', 10, 64)
+			case nF64:
+				want = strconv.FormatFloat(float64(x), 'f', 10, 64)
+			default:
+				isF = false
+			}
+			if isF {
+				if got, _ := v.(string); got != want {
+					return "ok fmtfloat-MISMATCH impl=" + hex.EncodeToString([]byte(got)) + " strconv=" + hex.EncodeToString([]byte(want))
+				}
+				return "ok fmtfloat"
 			}
 		}
 	case "bytes":
